@@ -299,6 +299,9 @@ func (c17) Run(t *testing.T, scenario any, job *Job, res *Result) {
 	}
 	res.AddSession(base.S)
 	if !sessionSucceeded(res, base.S, "[baseline] ") {
+		if res.Violation == nil {
+			return // inconclusive (harness trouble)
+		}
 		setTape(&sc.Sync.Tr, base.S)
 		return
 	}
